@@ -137,6 +137,11 @@ pub enum Case {
     JsonText { frame: u8, faults: Vec<Fault>, reader: Option<IoScript>, err: Option<(usize, ErrKind)> },
     /// structural faults on the JSON value of frame `frame`, read with `from_value`
     JsonValue { frame: u8, faults: Vec<JFault> },
+    /// the JSON document of frame `frame` written in an unusual but legal (or
+    /// nearly legal) way: 0 members in reverse key order, 1 first member of
+    /// every object twice, 2 an unknown member in every object, 3 white space
+    /// and line breaks between all tokens
+    JsonStyled { frame: u8, style: u8 },
 }
 
 #[derive(Clone, Debug, Hash, Serialize, Deserialize)]
@@ -616,6 +621,10 @@ pub fn generate(rng: &mut Rng) -> Result<WireScenario, String> {
             }
             _ => {
                 let frame = rng.below(n_frames as u64) as u8;
+                if rng.permille(150) {
+                    cases.push(Case::JsonStyled { frame, style: rng.below(4) as u8 });
+                    continue;
+                }
                 let nf = rng.range(1, 3);
                 cases.push(Case::JsonValue { frame, faults: (0..nf).map(|_| gen_jfault(rng)).collect() });
             }
@@ -627,6 +636,7 @@ pub fn generate(rng: &mut Rng) -> Result<WireScenario, String> {
             1 => reggen::Keep::Nothing,
             2 | 3 => reggen::Keep::One(rng.next_u64() as u32),
             4 => reggen::Keep::Last,
+            5 => reggen::Keep::Prefix(rng.next_u64() as u32),
             _ => {
                 let density = *rng.pick(&[20u32, 100, 300, 600]);
                 let mut bits = vec![0u64; 8];
@@ -890,6 +900,60 @@ pub fn json_sweep_faults(root: &serde_json::Value) -> Vec<JFault> {
     let mut out = Vec::new();
     rec(root, &mut Vec::new(), &mut out, &sweep_jvals());
     out
+}
+
+/// Write a JSON value in one of the styles of `Case::JsonStyled`.
+pub fn write_styled(v: &serde_json::Value, style: u8, out: &mut String) {
+    use serde_json::Value;
+    let sp = if style == 3 { " \n\t " } else { "" };
+    match v {
+        Value::Object(o) => {
+            out.push('{');
+            out.push_str(sp);
+            let mut members: Vec<(&String, &Value)> = o.iter().collect();
+            if style == 0 {
+                members.reverse();
+            }
+            let mut first = true;
+            let mut emit = |k: &String, val: &Value, out: &mut String, first: &mut bool| {
+                if !*first {
+                    out.push(',');
+                    out.push_str(sp);
+                }
+                *first = false;
+                out.push_str(&serde_json::to_string(k).unwrap_or_default());
+                out.push_str(sp);
+                out.push(':');
+                out.push_str(sp);
+                write_styled(val, style, out);
+            };
+            for (i, (k, val)) in members.iter().enumerate() {
+                emit(k, val, out, &mut first);
+                if style == 1 && i == 0 {
+                    emit(k, val, out, &mut first);
+                }
+            }
+            if style == 2 {
+                emit(&"zzz_unknown".to_string(), &Value::Null, out, &mut first);
+            }
+            out.push_str(sp);
+            out.push('}');
+        }
+        Value::Array(a) => {
+            out.push('[');
+            out.push_str(sp);
+            for (i, x) in a.iter().enumerate() {
+                if i > 0 {
+                    out.push(',');
+                    out.push_str(sp);
+                }
+                write_styled(x, style, out);
+            }
+            out.push_str(sp);
+            out.push(']');
+        }
+        other => out.push_str(&serde_json::to_string(other).unwrap_or_default()),
+    }
 }
 
 /// Offsets and lengths of the number tokens of a JSON text (outside strings).
@@ -1554,6 +1618,33 @@ fn execute_inner(scn: &WireScenario, mask: Mask, res: &mut WireResult) -> Check 
                     res.nontrivial_cases.push(hash_of(&(res.scenario_hash, ci as u64)));
                 }
             }
+            Case::JsonStyled { frame, style } => {
+                let k = *frame as usize % libs.len();
+                let v = serde_json::to_value(&libs[k]).expect("to_value cannot fail");
+                let mut text = String::new();
+                write_styled(&v, *style % 4, &mut text);
+                probe("fault.json_styled.injected");
+                let (r, usage) = alloc::measure(|| {
+                    core::catch(|| serde_json::from_str::<PortableRegistry>(&text).map_err(|e| e.to_string()))
+                });
+                check_alloc(mask, &format!("case {} json styled", ci), &usage, text.len())?;
+                let oc = match r {
+                    Ok(Ok(reg)) => {
+                        check_resolve(mask, &format!("case {} json styled", ci), &reg)?;
+                        "ok"
+                    }
+                    Ok(Err(_)) => "error",
+                    Err(m) => {
+                        fail(mask, "C14", &format!("json.{}", core::panic_clause(&m)), || {
+                            format!("case {}: deserialising a restyled JSON document panicked: {}", ci, m)
+                        })?;
+                        "panic"
+                    }
+                };
+                core::log_bytes(oc.as_bytes());
+                res.triples.insert((format!("json:styled{}", style % 4), "from_str".to_string(), oc.to_string()));
+                res.nontrivial_cases.push(hash_of(&(res.scenario_hash, ci as u64)));
+            }
             Case::JsonValue { frame, faults } => {
                 let k = *frame as usize % libs.len();
                 let mut v = serde_json::to_value(&libs[k]).expect("to_value cannot fail");
@@ -1703,10 +1794,13 @@ pub fn sweep_scenario(frame: &PReg) -> Result<Option<WireScenario>, String> {
         } else {
             probe("sweep.json_documents_skipped_too_many_nodes");
         }
+        for style in 0..4u8 {
+            cases.push(Case::JsonStyled { frame: 0, style });
+        }
         if let Ok(text) = serde_json::to_vec(&lib) {
             let mut n = 0u64;
             for (at, len) in json_number_sites(&text) {
-                for new in ["1e400", "-1", "4294967296", "1.5", "01", "99999999999999999999999", "1e-400", "-0"] {
+                for new in ["1e400", "-1", "4294967296", "4294967295", "1.5", "3.0", "0.0", "1e2", "2E0", "256", "01", "99999999999999999999999", "1e-400", "-0"] {
                     cases.push(Case::JsonText {
                         frame: 0,
                         faults: vec![Fault::Rewrite {
